@@ -34,6 +34,13 @@ def main():
         subprocess.check_call(["git", "-C", "/repo", "worktree", "add", "-q", "--detach", tree, "HEAD"])
         subprocess.check_call(["git", "-C", tree, "apply", patch])
         env["GBASIS_REPO"] = tree
+        # private copy of the Lean project (the translators rewrite GBExtracted/) and scratch output directory, so that runs
+        # against seeded changes neither disturb concurrent checks nor overwrite the committed evidence
+        lean_copy = tree + "_lean"
+        subprocess.check_call(["cp", "-r", os.path.join(VERIF, "lean"), lean_copy])
+        env["GBASIS_LEAN_DIR"] = lean_copy
+        env["GBASIS_OUT_DIR"] = tree + "_out"
+        os.makedirs(env["GBASIS_OUT_DIR"], exist_ok=True)
     results = {}
     try:
         for pid in pids:
@@ -52,9 +59,11 @@ def main():
             subprocess.check_call(["git", "-C", "/repo", "checkout", "--", "."])
         else:
             subprocess.call(["git", "-C", "/repo", "worktree", "remove", "--force", tree])
-        # regenerate the extracted files from the clean tree
-        subprocess.call(["/venv/bin/python", os.path.join(VERIF, "harness", "setup.py")], cwd=VERIF, stdout=subprocess.DEVNULL,
-                        stderr=subprocess.DEVNULL)
+            subprocess.call(["rm", "-rf", tree + "_lean", tree + "_out"])
+        if inplace:
+            # regenerate the extracted files from the clean tree
+            subprocess.call(["/venv/bin/python", os.path.join(VERIF, "harness", "setup.py")], cwd=VERIF, stdout=subprocess.DEVNULL,
+                            stderr=subprocess.DEVNULL)
     return results
 
 
